@@ -510,6 +510,22 @@ func (e *Engine) VerifyFunc(fc *FuncContract) *FuncResult {
 		}
 		x.topTargets = ts
 	}
+	if ptxt := fc.Opts["protect"]; ptxt != "" {
+		for _, part := range splitTop(ptxt, ',') {
+			pe, err := ParseExpr(part)
+			if err != nil {
+				res.Err = fmt.Errorf("%s: protect: %v", fc.Key(), err)
+				return res
+			}
+			ts, err := x.designator(pe, env)
+			if err != nil {
+				res.Err = fmt.Errorf("%s: protect %s: %w", fc.Key(), part, err)
+				return res
+			}
+			x.protect = append(x.protect, ts...)
+		}
+		vc.trusted["assumed in "+fc.Key()+": calls with unknown effects do not modify "+ptxt] = true
+	}
 	// vacuity: precondition satisfiable
 	vc.obls = append(vc.obls, &Obligation{Name: "cover/requires", Kind: "cover", Goal: TFalse, TraceLen: len(vc.trace), Pos: res.Pos, ExpectSat: true, Text: "precondition is satisfiable", Func: fc.Key(), Claimed: true})
 	out, rv, err := x.execFunc(fn, args, nil, st, "", 0)
